@@ -28,7 +28,8 @@ func c12(c *eng.Ctx, r *eng.Report) {
 		"R12.1 every EVM frame entry takes a state snapshot before its first state mutation and every path that returns a possibly non-nil error after the snapshot passes RevertToSnapshot (value-sensitive CFG search); " +
 		"R12.2 every jump-table row whose handler can reach a raw state setter (call-graph cone cut at the nested-frame boundary run()) is write-protected (writes flag, own readOnly test, or the reviewed CALL-with-value test in Run), and the interpreter refuses `writes` rows when readOnly before execute; " +
 		"R12.3 the readOnly flag is only set/reset inside Run under `readOnly && !in.readOnly`; " +
-		"R12.4 AccountDB.Prepare re-initialises every per-transaction scratch field and the block executor calls it before each transaction's BeforeExecute and reads logs by the same hash. " +
+		"R12.4 AccountDB.Prepare re-initialises every per-transaction scratch field and the block executor calls it before each transaction's BeforeExecute and reads logs by the same hash; " +
+		"R12.5 every raw state mutation is preceded by its journal entry on every path (C04's R4.2 re-run: RevertToSnapshot can only undo what was journaled). " +
 		"Not decided: value equality of the state before/after a failed frame."
 	r.Assume = []string{
 		"VTA call graph over-approximates dynamic callees (sound for reachability rules)",
@@ -39,6 +40,15 @@ func c12(c *eng.Ctx, r *eng.Report) {
 	c12WriteProtection(c, r)
 	c12Sticky(c, r)
 	c12Prepare(c, r)
+	// R12.5: a failed frame is undone by the journal, so every raw state mutation must be journaled
+	// (the rule is C04's R4.2, re-run here because frame isolation depends on it)
+	sub := eng.NewReport(r.Prop, r.Tier)
+	c04Journaled(c, sub)
+	for _, o := range sub.Obls {
+		o.Rule = "R12.5"
+		r.Obls = append(r.Obls, o)
+	}
+	r.Min("R12.5", 12)
 }
 
 func isStateDBCall(s eng.Site, method string) bool {
